@@ -7,6 +7,10 @@ TRUSTED_BASE = [
     "correspondence check for the hand-written model functions: tools/ckc-tools harness (real crate, in-process) vs lean/Driver.lean (compiled model)",
 ]
 
+# every property is run against two builds of the crate: release (wrapping arithmetic, no debug assertions) and
+# "checked" (overflow checks and debug assertions on), so that a change that only misbehaves in one profile is seen
+DEFAULT_PROFILES = ["checked"]
+
 PROPS = {
     "C10": {
         "technique": "Lean 4 kernel evaluation (decide) over constants and complete function graphs regenerated from the compiled crate",
@@ -45,7 +49,6 @@ PROPS = {
         "technique": "Lean 4 proof: induction on fuel for the binary search (every key), popcount sub-additivity + kernel evaluation over 8,192 masks and 7,937 table cells, fold invariant for the best-of loop",
         "level_text": "Machine-checked Lean 4 theorems about the model of the repaired code, where a panic (bounds check / arithmetic overflow) is the value none: the product search returns an in-range index for EVERY key; every five-, six- and seven-slot entry point returns some value for EVERY hand whose slots are real cards or blanks with any repetition (unbounded statement over all such lists); a five holding a blank has value 0 through every entry point and rank Invalid; the only multiplication stays below 2^32. The pinned (unrepaired) definitions are refuted in Lean on the recorded inputs.",
         "level_note": "Trusts: Lean kernel; rustc; extractor; the correspondence (all 4,187,106 five-slot multisets over cards+blank, seeded six/seven-slot hands, every table key +-1) run against BOTH a release build and a build with overflow checks. Partial: the model exhibits index and arithmetic panics only; absence of recursion/allocation in the crate is argued, not proved.",
-        "profiles": ["checked"],
         "assumptions": ["checked and wrapping arithmetic agree because no operation overflows on this domain (proved for the model, observed on both builds)"],
     },
     "C06": {
@@ -115,3 +118,6 @@ PROPS = {
         "level_note": "Trusts: Lean kernel; the correspondence (seeded histories of 1..40 setter calls with arbitrary words, every slot of every size, both composite constructors, all 6^5 + 7^5 selection tuples and out-of-range selection indices).",
     },
 }
+
+for _p in PROPS.values():
+    _p.setdefault("profiles", list(DEFAULT_PROFILES))
